@@ -112,7 +112,12 @@ func (q *Query) Script(getValues []*Term) string {
 		fmt.Fprintf(&sb, "(define-fun %s () %s %s)\n", nm, t.S.key, b.String())
 		names[t] = nm
 	}
+	seenHyp := map[*Term]bool{}
 	for _, h := range q.Hyps {
+		if seenHyp[h] {
+			continue
+		}
+		seenHyp[h] = true
 		sb.WriteString("(assert ")
 		printTerm(&sb, h, names)
 		sb.WriteString(")\n")
@@ -155,6 +160,11 @@ var solvers = []solverSpec{
 	}},
 }
 
+// arithmetic-oriented back end: cvc5 translating bit-vectors to integers (good at division/multiplication by constants)
+var cvc5Int = solverSpec{"cvc5-int", func(t int, f string) []string {
+	return []string{"cvc5", fmt.Sprintf("--tlimit=%d", t*1000), "--solve-bv-as-int=sum", f}
+}}
+
 var solverSem = make(chan struct{}, 14)
 
 func firstLine(s string) string {
@@ -176,7 +186,12 @@ func RunPortfolio(file string, timeoutS int, only string) SolveResult {
 	ch := make(chan r, len(solvers))
 	var wg sync.WaitGroup
 	cnt := 0
-	for _, s := range solvers {
+	list := solvers
+	if only == "+int" {
+		list = append(append([]solverSpec{}, solvers...), cvc5Int)
+		only = ""
+	}
+	for _, s := range list {
 		if only != "" && s.name != only {
 			continue
 		}
